@@ -194,6 +194,29 @@ UNITS += [sb_put_arr, file_put_arr, sock_put_arr]
 from units.C10 import sock_read as _sr, sock_write as _sw
 UNITS += [_sr, _sw]
 
+# ---- StreamBufferReader::read(n): n bytes into an array and the cursor advanced by n; a negative n (the default) means "all the rest"; n == 0 reads NOTHING
+SB = 'include/asl/StreamBuffer.h'
+reader_read_n = Unit(
+    'Reader_read_n', 'C16',
+    cuts=[Cut('rn', SB, r'^\t\tByteArray read\(int n = -1\) ', rules=[(r'(?<![\w.>])length\(\)', 'g_left', None), (r'ByteArray a\(n\);', 'g_alen = n;', 1), (r'memcpy\(a\.data\(\), _ptr, n\);', 'VF_COPY(n);', 1), (r'_ptr \+= n;', 'g_adv += n;', 1), (r'return a;', 'return;', 1)])],
+    text=r'''
+#include "vf_base.h"
+int g_left, g_alen, g_copied, g_adv;
+static void VF_COPY(int n) { __CPROVER_assert(0 <= n && n <= g_left && n <= g_alen, "the copy stays inside the remaining input and inside the new array"); g_copied = n; }
+void Reader_read_n(int n)
+__CPROVER_requires(0 <= g_left && g_left <= 1000000 && n <= g_left && g_alen == -1 && g_copied == -1 && g_adv == 0)
+/* exactly n bytes for n >= 0 (none for n == 0: a zero-length array in the middle of a stream must not swallow what follows); everything that is left for n < 0 */
+__CPROVER_ensures(g_alen == (n < 0 ? g_left : n) && g_copied == g_alen && g_adv == g_alen)
+__CPROVER_assigns(g_alen, g_copied, g_adv)
+@@rn@@
+void vf_harness(void) { int n; Reader_read_n(n); VF_CANARY(); }
+''',
+    entry='Reader_read_n',
+    desc='StreamBufferReader::read(n) for every n: n >= 0 reads exactly n bytes (0 reads nothing), n < 0 reads all that is left; cursor advanced by what was read',
+    functions=['StreamBufferReader::read(int)'],
+)
+UNITS += [reader_read_n]
+
 # replay: the native counterpart of the per-type contract units is the driver's battery: every scalar type x byte order x bit pattern through StreamBuffer, File and Socket
 # (socket bytes delivered in two pieces), mid-stream order switch, arrays of 0..5 elements, caller's array untouched
 for _u in UNITS:
